@@ -81,7 +81,19 @@ class Report:
     if self.proof is not None:
       pr = self.proof
       errors.extend(pr.errors)
-      obs = pr.obligations
+      # obligations tagged for other properties only: counted and reported
+      # only when the verifier does not accept them (their failure voids the
+      # proofs made after them on the same path); a listed finding of
+      # another property is none of this check's business
+      all_findings = common.load_known_findings().get('findings', [])
+
+      def foreign_known(o):
+        text = o.name + ' ' + o.label
+        return any(f.get('match', {}).get('obligation') and
+                   f['match']['obligation'] in text for f in all_findings)
+      obs = [(o, r) for o, r in pr.obligations
+             if not getattr(o, 'foreign', False) or (
+                 r['verdict'] != 'discharged' and not foreign_known(o))]
       n_ob = len(obs)
       disc = [o for o, r in obs if r['verdict'] == 'discharged']
       failed = [(o, r) for o, r in obs if r['verdict'] == 'failed']
@@ -112,7 +124,11 @@ class Report:
                            '' if concrete is not None else
                            ' no-failing-input-found'))
       from mmverif import baseline as _bl
-      proved_before = set(_bl.load().get(pid, []))
+      _all_bl = _bl.load()
+      proved_before = set(_all_bl.get(pid, []))
+      if any(getattr(o, 'foreign', False) for o, r in und):
+        for _keys in _all_bl.values():
+          proved_before |= set(_keys)
       for o, r in und:
         if known('obligation', o.name + ' ' + o.label):
           expected_fail += 1      # listed finding: expected not to be provable
@@ -335,7 +351,14 @@ def run_property(mod, tier, seed):
       return r['verdict'] == 'undecided' or (
           r['verdict'] == 'failed' and
           all(x.get('result') != 'sat' for x in r['runs']))
-    und = [(o, r) for o, r in rep.proof.obligations if soft(r)]
+    _kf = [f.get('match', {}).get('obligation') for f in
+           common.load_known_findings().get('findings', [])]
+    _kf = [k for k in _kf if k]
+
+    def listed(o):          # a recorded finding: expected not to be provable
+      return any(k in (o.name + ' ' + o.label) for k in _kf)
+    und = [(o, r) for o, r in rep.proof.obligations
+           if soft(r) and not listed(o)]
     # at most one representative per clause when many paths fail the same one
     if len(und) > 48:
       seen, few = set(), []
